@@ -858,6 +858,57 @@ func main() {
 			nfiles++
 		}
 	}
+	// Process-lifetime state. A worker process executes many runs; what the code
+	// under test keeps in package-level variables (lazily built tables, sync.Once,
+	// caches, flags "already done") would otherwise survive from one run into the
+	// next, and "first use in a process" would happen once per worker. Each
+	// package gets a file whose init function - the last of the package, by file
+	// name - notes the value of every package-level variable after the package's
+	// own initialisation, and registers a function that puts those values back;
+	// the harness calls it before every run. (A variable that starts out holding
+	// a non-nil map, slice or pointer keeps pointing to the same object: contents
+	// mutated in place are not restored.)
+	for _, p := range pkgs {
+		if !strings.HasPrefix(p.PkgPath, modPath) || strings.Contains(p.PkgPath, "/verif") || p.PkgPath == modPath {
+			continue
+		}
+		var names []string
+		dir := ""
+		for i, f := range p.Syntax {
+			fname := p.CompiledGoFiles[i]
+			if strings.HasSuffix(fname, "_test.go") {
+				continue
+			}
+			dir = filepath.Dir(fname)
+			for _, d := range f.Decls {
+				gd, ok := d.(*ast.GenDecl)
+				if !ok || gd.Tok != token.VAR {
+					continue
+				}
+				for _, sp := range gd.Specs {
+					for _, n := range sp.(*ast.ValueSpec).Names {
+						if n.Name != "_" {
+							names = append(names, n.Name)
+						}
+					}
+				}
+			}
+		}
+		if dir == "" || len(names) == 0 {
+			continue
+		}
+		sort.Strings(names)
+		var b bytes.Buffer
+		fmt.Fprintf(&b, "package %s\n\nimport \"github.com/Jigsaw-Code/outline-ss-server/verifrt/simrt\"\n\nfunc init() {\n\tvar restore []func()\n", p.Name)
+		for _, n := range names {
+			fmt.Fprintf(&b, "\t{\n\t\tv := %s\n\t\trestore = append(restore, func() { %s = v })\n\t}\n", n, n)
+		}
+		fmt.Fprintf(&b, "\tsimrt.RegisterReinit(func() {\n\t\tfor _, f := range restore {\n\t\t\tf()\n\t\t}\n\t})\n}\n")
+		if err := os.WriteFile(filepath.Join(dir, "zz_verif_reinit.go"), b.Bytes(), 0o644); err != nil {
+			fmt.Fprintln(os.Stderr, "instrument:", err)
+			os.Exit(2)
+		}
+	}
 	if *sitesOut != "" {
 		b, _ := json.MarshalIndent(map[string]any{"sites": sites, "warnings": warns}, "", " ")
 		os.WriteFile(*sitesOut, b, 0o644)
